@@ -1,6 +1,7 @@
 package props
 
 import (
+	"sort"
 	"strings"
 
 	"github.com/xujiajun/nutsdb"
@@ -276,4 +277,113 @@ func resolveFills(h *DBH, st Step) Step {
 	}
 	st.Ops = ops
 	return st
+}
+
+// genTreeShapeSteps builds the insertion history of a "tree-shape" case: every key of the universe is put once,
+// in an order chosen to drive the bucket's order-8 B+ tree (7 keys per leaf, a split leaves 4) through its
+// structural boundaries. "Jump and backfill": walking down the sorted universe (or up, or alternately from both
+// ends) the next key inserted lies r+1 positions beyond the frontier - a new smallest (largest) key of the tree -
+// and the r keys jumped over are inserted right after it, so they fall into the leaf at the frontier. r is drawn
+// per jump with a preference for 3, the number that refills a freshly split leaf exactly: the next extreme key
+// then arrives at a full leaf and splits it again.
+func genTreeShapeSteps(t *rapid.T, bucket string, keys []string) []Step {
+	keys = append([]string(nil), keys...)
+	sort.Strings(keys)
+	dir := rapid.SampledFrom([]string{"desc", "desc", "asc", "both"}).Draw(t, "tsdir")
+	fillOrder := rapid.SampledFrom([]string{"near", "far", "mixed"}).Draw(t, "tsfillorder")
+	lo, hi := 0, len(keys)-1 // keys[lo..hi] are not inserted yet
+	var seq []string
+	if rapid.Bool().Draw(t, "tsanchored") {
+		// "anchored" variant: an anchor key and six keys well beyond it fill the first leaf; then new extreme keys
+		// on the other side of the anchor alternate with r refills taken from the gap right next to the anchor, so
+		// the leaf holding the anchor keeps filling up behind it while new extremes keep arriving in front of it.
+		ord := keys
+		if rapid.Bool().Draw(t, "tsmirror") {
+			ord = make([]string, len(keys))
+			for i, k := range keys {
+				ord[len(keys)-1-i] = k
+			}
+		}
+		g := rapid.IntRange(9, 12).Draw(t, "tsgap")
+		a := len(ord)/4 + rapid.IntRange(0, len(ord)/4).Draw(t, "tsanchor")
+		if a+g+6 >= len(ord) {
+			a = len(ord) - g - 7 // room for the gap and the six keys beyond it
+		}
+		if a < 4 {
+			a = 4
+		}
+		rhythm := rapid.SampledFrom([]int{3, 3, 3, 2, 4}).Draw(t, "tsrhythm")
+		used := make([]bool, len(ord))
+		put := func(i int) {
+			if i >= 0 && i < len(ord) && !used[i] {
+				used[i] = true
+				seq = append(seq, ord[i])
+			}
+		}
+		put(a)
+		for i := a + g + 1; i <= a+g+6; i++ {
+			put(i)
+		}
+		// the refills walk through the gap away from the anchor or towards it (then every block of refills lands in
+		// front of the previous one, in the same leaf as the anchor)
+		gap, gstep := a+1, 1
+		if rapid.IntRange(0, 2).Draw(t, "tstowards") != 0 {
+			gap, gstep = a+g, -1
+		}
+		for front := a - 1; front >= 0; front-- {
+			put(front)
+			r := rhythm
+			if rapid.IntRange(0, 5).Draw(t, "tsoffbeat") == 2 {
+				r = rapid.IntRange(0, 5).Draw(t, "tsrefill")
+			}
+			for ; r > 0 && gap > a && gap <= a+g; r, gap = r-1, gap+gstep {
+				put(gap)
+			}
+		}
+		for i := range ord {
+			put(i)
+		}
+		lo, hi = 1, 0
+	}
+	for n := 0; lo <= hi; n++ {
+		r := rapid.SampledFrom([]int{0, 1, 2, 3, 3, 3, 3, 4, 6}).Draw(t, "tsjump")
+		if r > hi-lo {
+			r = hi - lo
+		}
+		down := dir == "desc" || (dir == "both" && n%2 == 0)
+		var skipped []string
+		if down {
+			// new smallest key: keys[hi-r]; the skipped ones are keys[hi-r+1..hi], nearest to it first
+			seq = append(seq, keys[hi-r])
+			skipped = append(skipped, keys[hi-r+1:hi+1]...)
+			hi -= r + 1
+		} else {
+			seq = append(seq, keys[lo+r])
+			for i := lo + r - 1; i >= lo; i-- {
+				skipped = append(skipped, keys[i])
+			}
+			lo += r + 1
+		}
+		switch fillOrder {
+		case "far":
+			for i, j := 0, len(skipped)-1; i < j; i, j = i+1, j-1 {
+				skipped[i], skipped[j] = skipped[j], skipped[i]
+			}
+		case "mixed":
+			if len(skipped) > 1 {
+				skipped = rapid.Permutation(skipped).Draw(t, "tsperm")
+			}
+		}
+		seq = append(seq, skipped...)
+	}
+	var steps []Step
+	for i := 0; i < len(seq); {
+		n := rapid.IntRange(1, 3).Draw(t, "tsnops")
+		st := Step{K: "tx", Managed: true}
+		for ; n > 0 && i < len(seq); n, i = n-1, i+1 {
+			st.Ops = append(st.Ops, Op{K: "put", B: S(bucket), Key: S(seq[i]), V: S("v" + seq[i][:1])})
+		}
+		steps = append(steps, st)
+	}
+	return steps
 }
